@@ -133,6 +133,120 @@ def _fill_loops(fn):
     return n
 
 
+def _zip_copy_loops(fn):
+    """`for (d, &s) in dst.iter_mut().zip(src.iter()) { *d = s }` is `dst.copy_from_slice(src)` for slices of equal length (which is what
+    the bulk form demands): every pair the zip yields is one element copied, nothing else happens in the loop."""
+    import json
+    blocks = fn["blocks"]
+    n = 0
+    for h, hb in enumerate(blocks):
+        ht = hb["term"]
+        if ht.get("t") != "call" or not _res(ht).endswith("Zip<A, B> as core::iter::Iterator>::next") or ht.get("to") is None or ht["dest"]["p"]:
+            continue
+        opt = ht["dest"]["l"]
+        sb = blocks[ht["to"]]
+        st = sb["term"]
+        if st.get("t") != "switch" or len(sb["stmts"]) != 1 or sb["stmts"][0]["rv"].get("r") != "discr" or sb["stmts"][0]["rv"]["pl"]["l"] != opt:
+            continue
+        arms = dict((x[0], x[1]) for x in st["arms"])
+        if set(arms) != {"0", "1"}:
+            continue
+        exit_b, body_b = arms["0"], arms["1"]
+        bb = blocks[body_b]
+        if bb["term"].get("t") != "goto" or bb["term"]["to"] != h:
+            continue
+        d = sref = val = None
+        vals = set()
+        okb = True
+        stored = False
+        for s_ in bb["stmts"]:
+            if s_["s"] != "assign":
+                continue
+            lhs, rv = s_["lhs"], s_["rv"]
+            if rv.get("r") == "use" and rv["a"].get("k") in ("copy", "move"):
+                pl_ = rv["a"]["pl"]
+                proj = pl_["p"]
+                if pl_["l"] == opt and len(proj) == 3 and isinstance(proj[2], dict) and proj[2].get("n") in ("0", "1") and not lhs["p"]:
+                    if proj[2]["n"] == "0":
+                        d = lhs["l"]
+                    else:
+                        sref = lhs["l"]
+                    continue
+                if sref is not None and pl_["l"] == sref and proj == ["*"] and not lhs["p"]:
+                    vals.add(lhs["l"])
+                    continue
+                if not proj and pl_["l"] in vals and not lhs["p"]:
+                    vals.add(lhs["l"])
+                    continue
+                if d is not None and lhs["l"] == d and lhs["p"] == ["*"] and not proj and pl_["l"] in vals and not stored:
+                    stored = True
+                    continue
+            if not lhs["p"] and lhs.get("ty") == "()" and rv.get("r") == "use" and rv["a"].get("k") == "const":
+                continue
+            okb = False
+        if not okb or not stored:
+            continue
+        # find the zip call (through an optional into_iter and a move into the loop variable)
+        def producer(local):
+            c = [i for i, b in enumerate(blocks) if b["term"].get("t") == "call" and not b["term"]["dest"]["p"] and b["term"]["dest"]["l"] == local]
+            return c[0] if len(c) == 1 else None
+        it = None
+        for s_ in hb["stmts"]:
+            if s_["s"] == "assign" and s_["rv"].get("r") == "ref" and not s_["rv"]["pl"]["p"]:
+                it = s_["rv"]["pl"]["l"] if it is None else it
+        if it is None:
+            continue
+        cur = it
+        chain = []
+        zb = None
+        for _ in range(4):
+            movers = [(i, s_) for i, b in enumerate(blocks) for s_ in b["stmts"] if s_["s"] == "assign" and not s_["lhs"]["p"] and s_["lhs"]["l"] == cur and s_["rv"].get("r") == "use" and _plain(s_["rv"]["a"])]
+            if len(movers) == 1:
+                cur = movers[0][1]["rv"]["a"]["pl"]["l"]
+                continue
+            pi = producer(cur)
+            if pi is None:
+                break
+            pt = blocks[pi]["term"]
+            if _res(pt).endswith("IntoIterator>::into_iter") and len(pt["args"]) == 1 and _plain(pt["args"][0]):
+                chain.append(pi)
+                cur = pt["args"][0]["pl"]["l"]
+                continue
+            if _res(pt).endswith("Iterator::zip") and len(pt["args"]) == 2 and all(_plain(a) for a in pt["args"]):
+                zb = pi
+            break
+        if zb is None:
+            continue
+        zt = blocks[zb]["term"]
+        pa, pb_ = producer(zt["args"][0]["pl"]["l"]), producer(zt["args"][1]["pl"]["l"])
+        if pa is None:
+            continue
+        ta = blocks[pa]["term"]
+        if not _res(ta).endswith("core::slice::<impl [T]>::iter_mut") or len(ta["args"]) != 1:
+            continue
+        if pb_ is not None:
+            tb = blocks[pb_]["term"]
+            if not _res(tb).endswith("core::slice::<impl [T]>::iter") or len(tb["args"]) != 1:
+                continue
+            src_arg = tb["args"][0]
+        elif (fn["locals"][zt["args"][1]["pl"]["l"]]["ty"] or "").startswith("&["):
+            src_arg = zt["args"][1]   # `.zip(&src[..])`: the slice reference itself is the second iterable
+        else:
+            continue
+        unit = len(fn["locals"])
+        fn["locals"].append({"ty": "()", "name": None, "mut": True})
+        # the iterator constructors fall away, the zip becomes the bulk copy, the loop is skipped
+        dst_arg = ta["args"][0]
+        blocks[pa]["term"] = {"t": "goto", "to": ta["to"]}
+        if pb_ is not None:
+            blocks[pb_]["term"] = {"t": "goto", "to": blocks[pb_]["term"]["to"]}
+        blocks[zb]["term"] = {"t": "call", "callee": "core::slice::<impl [T]>::copy_from_slice", "resolved": "core::slice::<impl [T]>::copy_from_slice", "local": False,
+                              "gargs": [], "args": [dst_arg, src_arg], "dest": {"l": unit, "p": [], "ty": "()"}, "to": exit_b, "fop": None,
+                              "sp": zt["sp"], "loop_idiom": "zip-copy"}
+        n += 1
+    return n
+
+
 def _into_as_from(fn):
     """`x.into()` through the blanket `impl<T, U: From<T>> Into<U> for T` is `U::from(x)`: the call is renamed to the `From` impl it runs"""
     n = 0
@@ -147,6 +261,131 @@ def _into_as_from(fn):
     return n
 
 
+def _err_type(ty):
+    """E of `core::result::Result<T, E>` (top-level comma)"""
+    if not ty or not ty.startswith("core::result::Result<") or not ty.endswith(">"):
+        return None
+    inner = ty[len("core::result::Result<"):-1]
+    depth = 0
+    for i, ch in enumerate(inner):
+        if ch in "<([":
+            depth += 1
+        elif ch in ">)]":
+            depth -= 1
+        elif ch == "," and depth == 0:
+            return inner[i + 1:].strip()
+    return None
+
+
+def _try_err(fn):
+    """`Err(e)?` where the function's error type is the type of `e` is `return Err(e)`: `Try::branch` of a value that was just built as
+    `Err(..)` always breaks, and `from_residual` with an identical error type rebuilds the same `Err(..)`.  The call/switch/call chain is
+    replaced by the assignment it amounts to."""
+    blocks = fn["blocks"]
+    n = 0
+    for a, ab in enumerate(list(blocks)):
+        t = ab["term"]
+        if t.get("t") != "call" or not _res(t).endswith("core::ops::Try>::branch") or len(t["args"]) != 1 or not _plain(t["args"][0]) or t.get("to") is None or t["dest"]["p"]:
+            continue
+        src = t["args"][0]["pl"]["l"]
+        agg = [s for s in ab["stmts"] if s["s"] == "assign" and s["lhs"]["l"] == src and not s["lhs"]["p"]]
+        if len(agg) != 1 or agg[0]["rv"].get("r") != "agg" or agg[0]["rv"]["kind"].get("variant") != "Err" or len(agg[0]["rv"]["ops"]) != 1:
+            continue
+        sb = blocks[t["to"]]
+        st = sb["term"]
+        if st.get("t") != "switch" or len(sb["stmts"]) != 1 or sb["stmts"][0]["rv"].get("r") != "discr" or sb["stmts"][0]["rv"]["pl"]["l"] != t["dest"]["l"]:
+            continue
+        arms = dict((x[0], x[1]) for x in st["arms"])
+        if "1" not in arms:
+            continue
+        bb = blocks[arms["1"]]
+        bt = bb["term"]
+        if bt.get("t") != "call" or not _res(bt).endswith("from_residual") or bt.get("to") is None:
+            continue
+        e_in = _err_type(fn["locals"][src]["ty"])
+        e_out = _err_type(fn["locals"][bt["dest"]["l"]]["ty"]) if not bt["dest"]["p"] else None
+        if e_in is None or e_in != e_out:
+            continue
+        new = {"cleanup": False, "stmts": [{"s": "assign", "lhs": dict(bt["dest"]), "rv": dict(agg[0]["rv"]), "sp": agg[0]["sp"]}],
+               "term": {"t": "goto", "to": bt["to"]}}
+        blocks.append(new)
+        ab["term"] = {"t": "goto", "to": len(blocks) - 1}
+        n += 1
+    return n
+
+
+def _ok_try(fn):
+    """`Ok(x?)` with an identical error type is `x`: the Continue arm only rewraps the payload as `Ok`, the Break arm rebuilds the same
+    `Err` - both arms assign the value `x` already had.  The branch/switch/two-arm chain is replaced by `dest = x`."""
+    blocks = fn["blocks"]
+    n = 0
+    for a, ab in enumerate(list(blocks)):
+        t = ab["term"]
+        if t.get("t") != "call" or not _res(t).endswith("core::ops::Try>::branch") or len(t["args"]) != 1 or not _plain(t["args"][0]) or t.get("to") is None or t["dest"]["p"]:
+            continue
+        b = t["dest"]["l"]
+        sb = blocks[t["to"]]
+        st = sb["term"]
+        if st.get("t") != "switch" or len(sb["stmts"]) != 1 or sb["stmts"][0]["rv"].get("r") != "discr" or sb["stmts"][0]["rv"]["pl"]["l"] != b:
+            continue
+        arms = dict((x[0], x[1]) for x in st["arms"])
+        if set(arms) != {"0", "1"}:
+            continue
+        cb, kb = blocks[arms["0"]], blocks[arms["1"]]
+        # Continue arm: copies of the payload, then dest = Ok{copy}; nothing else
+        vals = set()
+        dest = None
+        ok = cb["term"].get("t") == "goto"
+        for s_ in cb["stmts"]:
+            if s_["s"] != "assign":
+                continue
+            rv, lhs = s_["rv"], s_["lhs"]
+            if rv.get("r") == "use" and rv["a"].get("k") in ("copy", "move"):
+                pl_ = rv["a"]["pl"]
+                if pl_["l"] == b and len(pl_["p"]) == 2 and not lhs["p"]:
+                    vals.add(lhs["l"])
+                    continue
+                if not pl_["p"] and pl_["l"] in vals and not lhs["p"]:
+                    vals.add(lhs["l"])
+                    continue
+            if rv.get("r") == "agg" and rv["kind"].get("variant") == "Ok" and len(rv["ops"]) == 1 and _plain(rv["ops"][0]) and rv["ops"][0]["pl"]["l"] in vals and dest is None:
+                dest = lhs
+                continue
+            ok = False
+        kt = kb["term"]
+        if not ok or dest is None or kt.get("t") != "call" or not _res(kt).endswith("from_residual") or kt.get("to") is None:
+            continue
+        if kt["dest"] != dest or dest["p"]:
+            continue
+        # both arms join
+        j1 = cb["term"]["to"]
+        j2 = kt["to"]
+        while blocks[j2]["term"].get("t") == "goto" and not blocks[j2]["stmts"] and j2 != j1:
+            j2 = blocks[j2]["term"]["to"]
+        if j1 != j2:
+            continue
+        src_ty = fn["locals"][t["args"][0]["pl"]["l"]]["ty"]
+        if src_ty != fn["locals"][dest["l"]]["ty"]:
+            continue
+        # the payload copies must not be used after the join (the named `let` binding is only re-wrapped)
+        import json
+        later = json.dumps([blocks[i] for i in range(len(blocks)) if i not in (arms["0"], arms["1"], t["to"], a)])
+        if any(('"l": %d,' % v) in later for v in vals):
+            continue
+        # `x` is usually the result of the call just before: then that call writes the destination directly
+        x = t["args"][0]["pl"]["l"]
+        prods = [i for i, pb in enumerate(blocks) if pb["term"].get("t") == "call" and pb["term"].get("to") == a and not pb["term"]["dest"]["p"] and pb["term"]["dest"]["l"] == x]
+        uses_x = sum(json.dumps(bk).count('"l": %d,' % x) for bk in blocks)
+        if len(prods) == 1 and not ab["stmts"] and uses_x == 2:
+            blocks[prods[0]]["term"]["dest"] = dict(dest)
+            blocks[prods[0]]["term"]["to"] = j1
+        else:
+            ab["term"] = {"t": "goto", "to": len(blocks)}
+            blocks.append({"cleanup": False, "stmts": [{"s": "assign", "lhs": dict(dest), "rv": {"r": "use", "a": t["args"][0]}, "sp": t["sp"]}], "term": {"t": "goto", "to": j1}})
+        n += 1
+    return n
+
+
 def run(d):
     out = []
     for fn in d["fns"]:
@@ -156,6 +395,24 @@ def run(d):
             k = 0
         if k:
             out.append((fn["path"], "fill", k))
+        try:
+            k = _zip_copy_loops(fn)
+        except Exception:
+            k = 0
+        if k:
+            out.append((fn["path"], "zip-copy loop as copy_from_slice", k))
+        try:
+            k = _try_err(fn)
+        except Exception:
+            k = 0
+        if k:
+            out.append((fn["path"], "Err(e)? as return Err(e)", k))
+        try:
+            k = _ok_try(fn)
+        except Exception:
+            k = 0
+        if k:
+            out.append((fn["path"], "Ok(x?) as x", k))
         k = _into_as_from(fn)
         if k:
             out.append((fn["path"], "into() as From::from", k))
